@@ -260,3 +260,46 @@ func VerifLemma_C13D_ViewDeleteAll() {
 	}
 	st.checkOutside("view DeleteAll")
 }
+
+// VerifLemma_C13D_BarePrefix: a *leaf* memory bucket (no view in front of it): Walk / DeleteAll with a hostile
+// prefix. A prefix that is absolute or climbs ("..", "../x", "a/../..", "/") is an error, visits nothing and deletes
+// nothing; valid prefixes touch only objects path-wise under them.
+// (Added after seeded change C13-r2m1; the same code path, storageutil.ValidatePrefix, guards the disk bucket.)
+func VerifLemma_C13D_BarePrefix() {
+	ctx := context.Background()
+	p := vcShapePath(verifParam("PATH"))
+	b := newBucket(map[string]*internal.ImmutableObject{p: internal.NewImmutableObject(p, "", "", []byte(vcInsideData))})
+	s := verifNondetString(verifParam("ARG"))
+	key, valid := refCKey(s)
+	verifCover("state and prefix")
+	if verifNondetBool() {
+		n := 0
+		err := b.Walk(ctx, s, func(oi storage.ObjectInfo) error {
+			n++
+			verifAssert(oi.Path() == p, "bare Walk: only the stored object can be visited")
+			return nil
+		})
+		if !valid {
+			verifCover("bare Walk hostile")
+			verifAssert(err != nil && n == 0, "bare Walk: a prefix that is absolute or climbs is an error and visits nothing")
+		} else {
+			want := 0
+			if refCContains(key, p) {
+				want = 1
+			}
+			verifAssert(err == nil && n == want, "bare Walk: a valid prefix visits the object exactly when it is under the prefix")
+		}
+		_, still := b.pathToImmutableObject[p]
+		verifAssert(still && len(b.pathToImmutableObject) == 1, "bare Walk: state unchanged")
+		return
+	}
+	err := b.DeleteAll(ctx, s)
+	_, still := b.pathToImmutableObject[p]
+	if !valid {
+		verifCover("bare DeleteAll hostile")
+		verifAssert(err != nil && still, "bare DeleteAll: a prefix that is absolute or climbs is an error and deletes nothing")
+	} else {
+		verifAssert(err == nil && still == !refCContains(key, p), "bare DeleteAll: a valid prefix deletes the object exactly when it is under the prefix")
+	}
+	verifAssert(len(b.pathToImmutableObject) <= 1, "bare DeleteAll: nothing is created")
+}
